@@ -290,6 +290,7 @@ func isHelper(f *ssa.Function) bool {
 // whether such a helper exists, is split in two or is written out in place.
 var foldedRefFuncs = map[string]bool{
 	"(*" + ModPath + "/lib/opshell.Shell).resetSilenceTimer": true, /* C19 reasons about the time store and the timer reset at the places which need them */
+	"(*" + ModPath + "/internal/hsrv.Server).readTemplate":   true, /* C07 reasons about where the executed template comes from, on the paths of the handler itself */
 }
 
 // flatten folds helpers into their callers and hides the helpers which are no
